@@ -146,6 +146,35 @@ def setV (vs : List CVar) (i : Nat) (f : CVar → CVar) : List CVar :=
   | some v => vs.set i (f v)
   | none => vs
 
+-- ------------------------------------------------------------------------------------------------ units of expressions
+/-- the units the uninterpreted function symbols give their results (`none`: rejected) -/
+structure UI where
+  FU1 : String → U → Option U
+  FU2 : String → U → U → Option U
+
+/-- `units.evaluate_units` on right-hand sides: sums need equal units, products and quotients combine them -/
+def unitOf (J : UI) (s : CState) : X → Option U
+  | .var v => some (unitOfV s v)
+  | .deriv x t => some ((unitOfV s x).div (unitOfV s t))
+  | .lit _ u => some u
+  | .add a b | .sub a b =>
+      match unitOf J s a, unitOf J s b with
+      | some ua, some ub => if ua = ub then some ua else none
+      | _, _ => none
+  | .mul a b =>
+      match unitOf J s a, unitOf J s b with
+      | some ua, some ub => some (ua.mul ub)
+      | _, _ => none
+  | .div a b =>
+      match unitOf J s a, unitOf J s b with
+      | some ua, some ub => some (ua.div ub)
+      | _, _ => none
+  | .fn1 f a => (unitOf J s a).bind (J.FU1 f)
+  | .fn2 f a b =>
+      match unitOf J s a, unitOf J s b with
+      | some ua, some ub => J.FU2 f ua ub
+      | _, _ => none
+
 -- ------------------------------------------------------------------------------------------------ the calls used
 /-- `get_unique_name`: append `_a` while the name is in use. On fuel; `names.length` tries are enough, because the
     candidates get longer and longer (`Props/C06.lean`, `convert_var_names_fresh`). -/
